@@ -233,6 +233,25 @@ impl PA {
     }
 }
 
+impl PA {
+    /// R4: the same assets assembled piece by piece through the builder API, in ANOTHER order
+    /// (locks first, then the hashes, then one key source at a time, last to first)
+    pub fn to_assets_incremental(&self, leaves: &[TapLeafHash]) -> PlanAssets {
+        let whole = self.to_assets(leaves);
+        let mut a = PlanAssets::new();
+        if let Some(l) = whole.absolute_timelock { a = a.after(l); }
+        if let Some(l) = whole.relative_timelock { a = a.older(l); }
+        for h in whole.hash160_preimages.iter().rev() { a = a.add(*h); }
+        for h in whole.ripemd160_preimages.iter().rev() { a = a.add(*h); }
+        for h in whole.hash256_preimages.iter().rev() { a = a.add(*h); }
+        for h in whole.sha256_preimages.iter().rev() { a = a.add(*h); }
+        for k in whole.keys.iter().rev() {
+            a = a.add(PlanAssets { keys: vec![k.clone()].into_iter().collect(), ..Default::default() });
+        }
+        a
+    }
+}
+
 /// BIP65: does nLockTime = lt satisfy `after(n)`?   (independent of the library)
 fn after_ok(lt: u32, n: u32) -> bool { (lt < 500_000_000) == (n < 500_000_000) && n <= lt }
 /// BIP112: does nSequence = sq satisfy `older(n)`?
@@ -359,13 +378,40 @@ pub enum Given {
     Pre { kind: HK, id: u32 },
 }
 
+// Signing is deterministic (RFC 6979 / fixed auxiliary randomness): signatures are memoised per
+// (digest, secret key, tweak kind); the digest commits to the transaction and the spent output.
+thread_local! {
+    static ECDSA_SIGS: RefCell<std::collections::HashMap<([u8; 32], [u8; 32]), secp256k1::ecdsa::Signature>> = RefCell::new(Default::default());
+    static SCHNORR_SIGS: RefCell<std::collections::HashMap<([u8; 32], [u8; 32], bool), secp256k1::schnorr::Signature>> = RefCell::new(Default::default());
+}
+thread_local! { static PSAT_LAST: RefCell<Option<(String, (ScriptBuf, Option<(ScriptBuf, bool)>, Option<Option<TapNodeHash>>))>> = RefCell::new(None); }
+fn ecdsa_cached(digest: [u8; 32], sk: &SecretKey) -> secp256k1::ecdsa::Signature {
+    ECDSA_SIGS.with(|m| *m.borrow_mut().entry((digest, sk.secret_bytes())).or_insert_with(|| secp().sign_ecdsa(&Message::from_digest(digest), sk)))
+}
+/// `tweak`: Some(merkle root) for the key path (the output key's secret signs)
+fn schnorr_cached(digest: [u8; 32], sk: &SecretKey, tweak: Option<Option<TapNodeHash>>) -> secp256k1::schnorr::Signature {
+    SCHNORR_SIGS.with(|m| *m.borrow_mut().entry((digest, sk.secret_bytes(), tweak.is_some())).or_insert_with(|| {
+        let kp = secp256k1::Keypair::from_secret_key(secp(), sk);
+        let kp = match tweak { Some(root) => kp.tap_tweak(secp(), root).to_inner(), None => kp };
+        secp().sign_schnorr_with_aux_rand(&Message::from_digest(digest), &kp, &[9u8; 32])
+    }))
+}
+
 impl<'a> PSat<'a> {
     pub fn new(dd: &'a DD, pa: &'a PA, lt: u32, sq: u32) -> PSat<'a> {
         let tx = desc::make_tx(lt, sq);
-        let prevout = TxOut { value: Amount::from_sat(VALUE), script_pubkey: dd.desc.script_pubkey() };
-        let segwit = matches!(dd.desc.desc_type(), DescriptorType::Wsh | DescriptorType::ShWsh | DescriptorType::Wpkh | DescriptorType::ShWpkh);
-        let code = dd.desc.script_code().ok().map(|c| (c, segwit));
-        let tap_root = match &dd.desc { Descriptor::Tr(tr) => Some(tr.spend_info().merkle_root()), _ => None };
+        // consecutive satisfiers are for the same descriptor: its output data is computed once
+        let (spk, code, tap_root) = PSAT_LAST.with(|c| {
+            let mut c = c.borrow_mut();
+            if c.as_ref().map(|(n, _)| *n != dd.name).unwrap_or(true) {
+                let segwit = matches!(dd.desc.desc_type(), DescriptorType::Wsh | DescriptorType::ShWsh | DescriptorType::Wpkh | DescriptorType::ShWpkh);
+                let code = dd.desc.script_code().ok().map(|c| (c, segwit));
+                let tap_root = match &dd.desc { Descriptor::Tr(tr) => Some(tr.spend_info().merkle_root()), _ => None };
+                *c = Some((dd.name.clone(), (dd.desc.script_pubkey(), code, tap_root)));
+            }
+            c.as_ref().unwrap().1.clone()
+        });
+        let prevout = TxOut { value: Amount::from_sat(VALUE), script_pubkey: spk };
         PSat { pa, dd, tx, prevout, code, tap_root, issued: Default::default(), tap_key_sig: Default::default(), log: Default::default() }
     }
     fn leaf_index(&self, lh: &TapLeafHash) -> Option<usize> { self.dd.leaves.iter().position(|l| l == lh) }
@@ -377,7 +423,7 @@ impl<'a> PSat<'a> {
         } else {
             cache.legacy_signature_hash(0, sc, EcdsaSighashType::All.to_u32()).ok()?.to_byte_array()
         };
-        let sig = secp().sign_ecdsa(&Message::from_digest(digest), sk);
+        let sig = ecdsa_cached(digest, sk);
         Some(ecdsa::Signature { signature: sig, sighash_type: EcdsaSighashType::All })
     }
     fn pre(&self, kind: HK, v: &[u8]) -> Option<[u8; 32]> {
@@ -418,8 +464,7 @@ impl<'a> Satisfier<DefiniteDescriptorKey> for PSat<'a> {
         let x = ast::xonly_key(id);
         let mut cache = SighashCache::new(&self.tx);
         let digest = cache.taproot_script_spend_signature_hash(0, &Prevouts::All(&[self.prevout.clone()]), h.1, TapSighashType::Default).ok()?;
-        let kp = secp256k1::Keypair::from_secret_key(secp(), &ast::secret(id % 100));
-        let sig = secp().sign_schnorr_with_aux_rand(&Message::from_digest(digest.to_byte_array()), &kp, &[9u8; 32]);
+        let sig = schnorr_cached(digest.to_byte_array(), &ast::secret(id % 100), None);
         let s = taproot::Signature { signature: sig, sighash_type: TapSighashType::Default };
         self.issued.borrow_mut().push((x.serialize().to_vec(), s.to_vec()));
         self.log.borrow_mut().push(Given::TapLeaf { key: None, x, leaf: h.1, sig: s });
@@ -432,8 +477,7 @@ impl<'a> Satisfier<DefiniteDescriptorKey> for PSat<'a> {
         let ty = if src.sighash_default { TapSighashType::Default } else { TapSighashType::All };
         let mut cache = SighashCache::new(&self.tx);
         let digest = cache.taproot_key_spend_signature_hash(0, &Prevouts::All(&[self.prevout.clone()]), ty).ok()?;
-        let kp = secp256k1::Keypair::from_secret_key(secp(), &k.sk).tap_tweak(secp(), root);
-        let sig = secp().sign_schnorr_with_aux_rand(&Message::from_digest(digest.to_byte_array()), &kp.to_inner(), &[9u8; 32]);
+        let sig = schnorr_cached(digest.to_byte_array(), &k.sk, Some(root));
         let s = taproot::Signature { signature: sig, sighash_type: ty };
         *self.tap_key_sig.borrow_mut() = Some(s.to_vec());
         self.log.borrow_mut().push(Given::TapKey { sig: s });
@@ -446,8 +490,7 @@ impl<'a> Satisfier<DefiniteDescriptorKey> for PSat<'a> {
         let ty = if src.sighash_default { TapSighashType::Default } else { TapSighashType::All };
         let mut cache = SighashCache::new(&self.tx);
         let digest = cache.taproot_script_spend_signature_hash(0, &Prevouts::All(&[self.prevout.clone()]), *leaf, ty).ok()?;
-        let kp = secp256k1::Keypair::from_secret_key(secp(), &k.sk);
-        let sig = secp().sign_schnorr_with_aux_rand(&Message::from_digest(digest.to_byte_array()), &kp, &[9u8; 32]);
+        let sig = schnorr_cached(digest.to_byte_array(), &k.sk, None);
         let s = taproot::Signature { signature: sig, sighash_type: ty };
         self.issued.borrow_mut().push((k.pk.inner.x_only_public_key().0.serialize().to_vec(), s.to_vec()));
         self.log.borrow_mut().push(Given::TapLeaf { key: Some(k.id), x: k.pk.inner.x_only_public_key().0, leaf: *leaf, sig: s });
@@ -569,6 +612,9 @@ fn ph_id_wire(dd: &DD, p: &Placeholder<DefiniteDescriptorKey>) -> String {
         TapControlBlock(cb) => format!("cb:{}", hex(&cb.serialize())),
     }
 }
+fn plan_desc<Pr: AssetProvider<DefiniteDescriptorKey>>(d: DDesc, pr: &Pr, mall: bool) -> Option<Result<DPlan, DDesc>> {
+    catch(|| if mall { d.into_plan_mall(pr) } else { d.into_plan(pr) })
+}
 /// everything a caller can observe of a plan: template, locks, the three sizes
 fn plan_sig(dd: &DD, p: &Option<DPlan>) -> String {
     match p {
@@ -638,6 +684,26 @@ pub fn check_case_api(out: &mut Out, dd: &DD, pa: &PA, api: Option<(&str, &PlanA
             Some(r) => out.line(&format!("J plan-provider-same {} {} {} {} {} {}", ty_name(ty), mode, dd.name, aw, plan_sig(dd, &plan), plan_sig(dd, &r.ok())), "ok"),
         }
     }
+    // R4 used objects.  `dd.desc` has its taproot spend-info cache filled (and `clone` carries
+    // the cache along): the same descriptor REBUILT from its parts, never used, must plan alike
+    if let Descriptor::Tr(tr) = &dd.desc {
+        if let Ok(f) = miniscript::descriptor::Tr::new(tr.internal_key().clone(), tr.tap_tree().cloned()) {
+            let r = if via_sat { plan_desc(Descriptor::Tr(f), &psat0, mall) } else { plan_desc(Descriptor::Tr(f), &assets, mall) };
+            match r {
+                None => { out.line(&format!("J nopanic plan-fresh {}.{} {} {} {} PANIC", class, ty_name(ty), mode, dd.name, aw), "ok"); }
+                Some(r) => out.line(&format!("J plan-fresh-same {} {} {} {} {} {}", ty_name(ty), mode, dd.name, aw, plan_sig(dd, &plan), plan_sig(dd, &r.ok())), "ok"),
+            }
+        }
+    }
+    // R4 Assets assembled through the builder piece by piece, in another order
+    if api.is_none() && !via_sat {
+        let inc = pa.to_assets_incremental(&dd.leaves);
+        if inc != assets { out.count("observation: Assets built incrementally compare unequal to the same Assets built at once"); }
+        match run_plan(dd, &inc, mall, false) {
+            None => { out.line(&format!("J nopanic plan-incremental-assets {}.{} {} {} {} PANIC", class, ty_name(ty), mode, dd.name, aw), "ok"); }
+            Some(r) => out.line(&format!("J plan-assets-order-same {} {} {} {} {} {}", ty_name(ty), mode, dd.name, aw, plan_sig(dd, &plan), plan_sig(dd, &r.ok())), "ok"),
+        }
+    }
     // transaction fields: the plan's reported locks (else the assets' maxima)
     let (lt, sq) = match &plan {
         Some(p) => (p.absolute_timelock.map(|l| l.to_consensus_u32()).unwrap_or(0),
@@ -669,6 +735,7 @@ pub fn check_case_api(out: &mut Out, dd: &DD, pa: &PA, api: Option<(&str, &PlanA
     out.line(&format!("C plansize {} {} {}", ty_name(ty), tw, script_len),
         &format!("{} {} {}", plan.witness_size(), plan.scriptsig_size(), plan.satisfaction_weight()));
     // complete the plan with the same satisfier
+    let plan_copy = plan.clone();
     let psat_p = PSat::new(dd, pa, lt, sq);
     let done = match catch(|| plan.satisfy(&psat_p).ok()) {
         None => { out.line(&format!("J nopanic plan-satisfy {}.{} {} {} {} PANIC", class, ty_name(ty), mode, dd.name, aw), "ok"); return; }
@@ -723,6 +790,24 @@ pub fn check_case_api(out: &mut Out, dd: &DD, pa: &PA, api: Option<(&str, &PlanA
     }
     // what update_psbt_input writes, and finalization of the updated + signed PSBT
     psbt_check(out, dd, &plan, &psat_p, &pwit, &pss, &head, mall, class);
+    // R4 used objects: the SAME Plan completed a second time, after update_psbt_input ran on it,
+    // and (every 4th case) a clone taken before the first use: identical output every time
+    {
+        let nth = REUSE_CTR.with(|c| { let v = c.get(); c.set(v + 1); v });
+        let first = format!("{}/{}", wit_wire(&pwit), hex(pss.as_bytes()));
+        let mut uses: Vec<(&str, &DPlan)> = vec![("second-use-after-update_psbt_input", &plan)];
+        if nth % 4 == 0 { uses.push(("clone-taken-before-use", &plan_copy)); }
+        for (which, p) in uses {
+            let ps_r = PSat::new(dd, pa, lt, sq);
+            match catch(|| p.satisfy(&ps_r).ok()) {
+                None => { out.line(&format!("J nopanic plan-satisfy-again {}.{} {} {} {} PANIC", class, ty_name(ty), mode, dd.name, aw), "ok"); }
+                Some(r) => {
+                    let again = r.map(|(w, s)| format!("{}/{}", wit_wire(&w), hex(s.as_bytes()))).unwrap_or("none".into());
+                    out.line(&format!("J plan-reuse-same {} {} {} {}", head, which, first, again), "ok");
+                }
+            }
+        }
+    }
     // taproot: the cheapest available path is chosen
     if ty == DescriptorType::Tr && dd.leaves.len() >= 2 && !via_sat { tr_choice(out, dd, pa, Some(&plan), mall, &head); }
     // (d) necessity: any smaller value, the other unit, or no lock at all must fail
@@ -902,8 +987,26 @@ fn psbt_check(out: &mut Out, dd: &DD, plan: &DPlan, ps: &PSat, pwit: &[Vec<u8>],
     // twice, and the plan applied after PsbtExt::update_input_with_descriptor; both must still
     // finalize to the plan's spend.  What the second update changes is an observation.
     let nth = VARIANT_CTR.with(|c| { let v = c.get(); c.set(v + 1); v });
-    if nth % 3 != 0 { return; }
+    if nth % 3 != 0 && nth % 6 != 1 { return; }
     let fresh = || -> Option<Psbt> { let mut p = Psbt::from_unsigned_tx(ps.tx.clone()).ok()?; p.inputs[0].witness_utxo = Some(ps.prevout.clone()); Some(p) };
+    if nth % 3 != 0 {
+    // R4: a finalize attempt BEFORE the signatures are there fails; the same Psbt object, signed
+    // afterwards, must still finalize to the plan's spend
+    if let Some(mut p4) = fresh() {
+        if catch(|| plan.update_psbt_input(&mut p4.inputs[0])).is_some() {
+            let (early, _, _) = finalize(&mut p4, mall);
+            if early == "ok" { out.count("psbt afterfail: finalizes without any signature (nothing to observe)"); }
+            else {
+                sign_input(&mut p4.inputs[0], &log);
+                let (res, fw, fs) = finalize(&mut p4, mall);
+                if !pkh_dissat {
+                    out.line(&format!("J psbt-finalize afterfail.{}.{} {} {} {} {} {} {} {} {}", class, tag, mode, dd.name, aw, res, fw, fs, wit_wire(pwit), hex(pss.as_bytes())), "ok");
+                }
+            }
+        }
+    }
+    return;
+    }
     if let Some(mut p2) = fresh() {
         if catch(|| { plan.update_psbt_input(&mut p2.inputs[0]); plan.update_psbt_input(&mut p2.inputs[0]); }).is_none() {
             out.line(&format!("J nopanic update_psbt_input-twice {}.{} {} PANIC", class, ty_name(ty), head), "ok");
@@ -957,6 +1060,7 @@ fn psbt_check(out: &mut Out, dd: &DD, plan: &DPlan, ps: &PSat, pwit: &[Vec<u8>],
 }
 
 thread_local! { static VARIANT_CTR: std::cell::Cell<u64> = std::cell::Cell::new(0); }
+thread_local! { static REUSE_CTR: std::cell::Cell<u64> = std::cell::Cell::new(0); }
 
 fn sign_input(inp: &mut psbt::Input, log: &[Given]) {
     for g in log {
@@ -1125,6 +1229,10 @@ fn pa_variants(dd: &DD, cap: usize, rng: &mut Rng) -> Vec<PA> {
         // … and, for EVERY descriptor, each lock at / one below / one above / other unit / none
         for o in lock_options_abs(&dd.afters) { let mut a = full.clone(); a.abs = o; w.push(a); }
         for o in lock_options_rel(&dd.olders) { let mut a = full.clone(); a.rel = o; w.push(a); }
+        // … and, when the script has locks, every "one key missing" set (forces the other paths)
+        if !dd.afters.is_empty() || !dd.olders.is_empty() {
+            for i in 0..full.srcs.len() { let mut a = full.clone(); a.srcs.remove(i); w.push(a); }
+        }
         let mut seen = BTreeSet::new();
         w.retain(|a| seen.insert(a.clone()));
         v = w;
@@ -1279,6 +1387,121 @@ fn raw_variants(dd: &DD) -> Vec<PA> {
     let mut seen = BTreeSet::new();
     v.retain(|a| seen.insert(a.clone()));
     v
+}
+
+/// R5: a lock-carrying child below EVERY fragment kind (each wrapper, each combinator position,
+/// thresh), on a path the satisfier must take when key `k(1)` (the "other branch") is missing,
+/// incl. satisfactions that run through a DISSATISFIED neighbour (or_b / or_c / or_d / andor /
+/// thresh).  `lk` = older(10) or after(100).
+fn lock_towers(k: &dyn Fn(u32) -> u32, lk: &Node) -> Vec<Node> {
+    let v = |n: Node| Node::Verify(bx(n));
+    let l = || lk.clone();
+    // lock-carrying children of the needed base types
+    let lb = || and_v(vpk(k(0)), l());                                    // B, needs key 0
+    let lk_k = || and_v(v(l()), Node::PkK(k(0)));                         // K
+    let lo = || and_v(v(l()), pk(k(0)));                                  // B, one-arg (for s:)
+    let ld = || Node::OrI(bx(Node::False), bx(Node::ZeroNotEqual(bx(l()))));   // B, dissatisfiable, unit (l:n:lock)
+    let ldk = || Node::AndB(bx(pk(k(0))), bx(Node::Alt(bx(ld()))));       // B, dissatisfiable, unit, needs key 0
+    let alt = || pk(k(1));
+    vec![
+        // wrappers
+        Node::AndB(bx(pk(k(2))), bx(Node::Alt(bx(lb())))),                // a:
+        Node::AndB(bx(pk(k(2))), bx(Node::Swap(bx(lo())))),               // s:
+        Node::Check(bx(lk_k())),                                          // c:
+        and_v(vpk(k(0)), Node::DupIf(bx(v(l())))),                        // d:v:
+        and_v(v(lb()), pk(k(2))),                                         // v:
+        Node::NonZero(bx(lo())),                                          // j:
+        Node::ZeroNotEqual(bx(lb())),                                     // n:
+        and_v(vpk(k(0)), Node::ZeroNotEqual(bx(Node::ZeroNotEqual(bx(l()))))),
+        Node::AndB(bx(pk(k(0))), bx(Node::Alt(bx(Node::DupIf(bx(v(Node::ZeroNotEqual(bx(l()))))))))),  // a:d:v:n:
+        // and_*: lock on either side
+        and_v(v(l()), pk(k(0))),
+        and_v(vpk(k(0)), l()),
+        Node::AndB(bx(lb()), bx(Node::Alt(bx(pk(k(2)))))),
+        Node::AndB(bx(pk(k(0))), bx(Node::Alt(bx(l())))),
+        // or_*: lock branch chosen; the other child DISSATISFIED next to it
+        Node::OrB(bx(alt()), bx(Node::Alt(bx(ldk())))),
+        Node::OrB(bx(ldk()), bx(Node::Alt(bx(alt())))),
+        and_v(Node::OrC(bx(alt()), bx(v(lb()))), Node::True),
+        Node::OrD(bx(alt()), bx(lb())),
+        Node::OrD(bx(ldk()), bx(alt())),
+        Node::OrI(bx(lb()), bx(alt())),
+        Node::OrI(bx(alt()), bx(lb())),
+        // andor: lock in each of the three positions
+        Node::AndOr(bx(alt()), bx(pk(k(2))), bx(lb())),                   // a dissatisfied, z has the lock
+        Node::AndOr(bx(pk(k(0))), bx(l()), bx(alt())),                    // b is the lock
+        Node::AndOr(bx(ldk()), bx(pk(k(2))), bx(alt())), // a has the lock
+        // thresh: lock child among the satisfied ones; and next to a dissatisfied one
+        Node::Thresh(2, vec![pk(k(0)), Node::Swap(bx(alt())), Node::Swap(bx(ld()))]),
+        Node::Thresh(2, vec![ldk(), Node::Swap(bx(alt())), Node::Swap(bx(pk(k(2))))]),
+        Node::Thresh(3, vec![pk(k(0)), Node::Swap(bx(pk(k(2)))), Node::Swap(bx(ld()))]),
+        Node::Thresh(1, vec![ldk(), Node::Swap(bx(alt()))]),
+        // combinator over a cast: t:or_c, u-sugar (or_i(X,0)) over a lock
+        and_v(Node::OrC(bx(alt()), bx(v(Node::OrI(bx(lb()), bx(Node::False))))), Node::True),
+        Node::OrD(bx(alt()), bx(Node::OrI(bx(lb()), bx(Node::False)))),
+    ]
+}
+
+/// scripts whose malleable and non-malleable plans differ (a plan exists only in malleable
+/// mode, or another witness is chosen): every `_mall` arm of every wrapper must be taken
+fn mode_corpus(k: &dyn Fn(u32) -> u32) -> Vec<Node> {
+    let h = |i: u32| Node::Hash(if i % 2 == 0 { HK::Sha256 } else { HK::Hash256 }, if i % 2 == 0 { 0 } else { 2 });
+    vec![
+        and_v(vpk(k(0)), Node::OrI(bx(h(0)), bx(h(1)))),
+        Node::OrB(bx(h(0)), bx(Node::Alt(bx(h(1))))),
+        Node::OrD(bx(pk(k(0))), bx(Node::OrI(bx(h(0)), bx(h(1))))),
+        Node::AndOr(bx(h(0)), bx(pk(k(0))), bx(h(1))),
+        Node::Thresh(1, vec![h(0), Node::Alt(bx(h(1))), Node::Swap(bx(pk(k(0))))]),
+        Node::OrI(bx(and_v(Node::Verify(bx(h(0))), Node::Older(10))), bx(and_v(Node::Verify(bx(h(1))), Node::After(100)))),
+    ]
+}
+
+/// one key in two places (pk / pkh / multisig member, on one path and on two paths): accepted by
+/// the constructors, refused by the sanity rules; plans must stay faithful all the same
+fn repeated_key_corpus(k: &dyn Fn(u32) -> u32, tap: bool) -> Vec<Node> {
+    let pkh = |i: u32| Node::Check(bx(Node::PkH(i)));
+    let mut v = vec![
+        Node::OrD(bx(pk(k(0))), bx(and_v(Node::Verify(bx(pkh(k(0)))), Node::Older(10)))),
+        Node::OrI(bx(pk(k(0))), bx(and_v(vpk(k(0)), Node::After(100)))),
+        and_v(vpk(k(0)), pk(k(0))),
+        and_v(vpk(k(0)), pkh(k(0))),
+        Node::Thresh(2, vec![pk(k(0)), Node::Swap(bx(pk(k(0)))), Node::Swap(bx(pk(k(1))))]),
+        Node::OrB(bx(pkh(k(0))), bx(Node::Alt(bx(pkh(k(0)))))),
+    ];
+    if tap { v.push(Node::MultiA(2, vec![k(0), k(0), k(1)])); v.push(Node::OrD(bx(Node::MultiA(1, vec![k(0), k(1)])), bx(pk(k(0))))); }
+    else { v.push(Node::Multi(2, vec![k(0), k(0), k(1)])); v.push(Node::OrD(bx(Node::Multi(1, vec![k(0), k(1)])), bx(pk(k(0))))); }
+    v
+}
+
+/// R2: inputs the library REFUSES today, one reason each (label, wrap, script).  Whatever is
+/// accepted one day runs through every judge like any other descriptor.
+fn refused_corpus() -> Vec<(&'static str, Wrap, Node)> {
+    let v = |n: Node| Node::Verify(bx(n));
+    vec![
+        ("uncompressed key in wsh", Wrap::Wsh, pk(100)),
+        ("uncompressed key in sh(wsh)", Wrap::ShWsh, and_v(vpk(0), pk(101))),
+        ("uncompressed pkh in wsh", Wrap::Wsh, Node::Check(bx(Node::PkH(100)))),
+        ("multi_a outside tapscript", Wrap::Wsh, Node::MultiA(1, vec![0, 1])),
+        ("multi_a in sh", Wrap::Sh, Node::MultiA(1, vec![0, 1])),
+        ("multi with 21 keys", Wrap::Wsh, Node::Multi(1, (0..21).map(|i| i % 10).collect())),
+        ("bare: not pk / pkh / multi", Wrap::Bare, and_v(vpk(0), pk(1))),
+        ("bare: multi with 4 keys", Wrap::Bare, Node::Multi(1, vec![0, 1, 2, 3])),
+        ("bare: lock", Wrap::Bare, and_v(vpk(0), Node::Older(10))),
+        ("sh: redeem script over 520 bytes", Wrap::Sh, Node::Multi(1, (0..16).map(|i| i % 10).collect())),
+        ("top level V", Wrap::Wsh, vpk(0)),
+        ("top level K", Wrap::Wsh, Node::PkK(0)),
+        ("top level W", Wrap::Wsh, Node::Alt(bx(pk(0)))),
+        ("top level V in sh", Wrap::Sh, v(and_v(vpk(0), Node::Older(10)))),
+        ("older(0)", Wrap::Wsh, and_v(vpk(0), Node::Older(0))),
+        ("older with the disable flag", Wrap::Wsh, and_v(vpk(0), Node::Older(0x8000_000a))),
+        ("after(0)", Wrap::Wsh, and_v(vpk(0), Node::After(0))),
+        ("after above 2^31", Wrap::Wsh, and_v(vpk(0), Node::After(0x8000_0000))),
+        ("thresh k = 0", Wrap::Wsh, Node::Thresh(0, vec![pk(0), Node::Swap(bx(pk(1)))])),
+        ("thresh k > n", Wrap::Wsh, Node::Thresh(3, vec![pk(0), Node::Swap(bx(pk(1)))])),
+        ("multi k > n", Wrap::Wsh, Node::Multi(3, vec![0, 1])),
+        ("d: over a non-zero-arg child", Wrap::Wsh, Node::DupIf(bx(vpk(0)))),
+        ("s: over a two-element child", Wrap::Wsh, Node::AndB(bx(pk(0)), bx(Node::Swap(bx(Node::Multi(1, vec![1, 2])))))),
+    ]
 }
 
 /// uncompressed keys inside sh() / bare() miniscripts (every tier): satisfied, dissatisfied
@@ -1507,12 +1730,23 @@ pub fn run(out: &mut Out, thorough: bool, seed: u64) {
         };
         let mut nodes: Vec<Node> = ast::enumerate(ctx, &atoms, if thorough { 4 } else { 3 }, if thorough { 30 } else { 6 }, &mut rng)
             .into_iter().filter(|t| t.base == Base::B).map(|t| t.node).collect();
+        let n_enum = nodes.len();
         nodes.extend(lock_corpus(&|i| i, false));
         nodes.extend(lock_corpus(&|i| 300 + i, false));
         nodes.extend(hash_corpus(&|i| i));
         if ctx != CtxK::Bare { nodes.extend(raw_corpus(&|i| i)); }
         // the designated input classes, in every tier
         nodes.extend(ast::dimension_corpus(ctx));
+        if ctx != CtxK::Bare {
+            // a lock below every fragment kind on the forced path; mode-distinguishing scripts
+            let designated: Vec<Node> = lock_towers(&|i| i, &Node::Older(10)).into_iter()
+                .chain(lock_towers(&|i| i, &Node::After(100))).chain(mode_corpus(&|i| i)).chain(repeated_key_corpus(&|i| i, false)).collect();
+            for n in &designated {
+                let ok = match ctx { CtxK::Segwitv0 => ast::to_ms::<DefiniteDescriptorKey, Segwitv0>(n).is_ok(), _ => ast::to_ms::<DefiniteDescriptorKey, Legacy>(n).is_ok() };
+                if !ok { out.count(&format!("designated script not constructible in {}: {}", ctx.name(), n.wire())); }
+            }
+            nodes.extend(designated);
+        }
         if ctx == CtxK::Legacy || ctx == CtxK::Bare { nodes.extend(unc_corpus(ctx == CtxK::Bare)); }
         if ctx == CtxK::Legacy {
             // redeem scripts at the push-opcode edges and a wide one (343 bytes: 3-byte push)
@@ -1522,12 +1756,15 @@ pub fn run(out: &mut Out, thorough: bool, seed: u64) {
             nodes.push(Node::Multi(1, (0..10).collect()));
             nodes.push(Node::Multi(3, (0..10).collect()));
         }
+        // every hand-made / designated script goes through EVERY wrapper; only the machine
+        // enumeration is thinned under sh(wsh) (every third script)
+        let designated: BTreeSet<Node> = nodes[n_enum..].iter().cloned().collect();
         let mut seen_nodes = BTreeSet::new();
         nodes.retain(|n| seen_nodes.insert(n.clone()));
+        let mut n_thin = 0u64;
         for node in &nodes {
             for w in &wraps {
-                // sh-wsh: every third script only (same satisfier as wsh)
-                if *w == Wrap::ShWsh && n_desc % 3 != 0 { n_desc += 1; continue; }
+                if *w == Wrap::ShWsh && !designated.contains(node) { n_thin += 1; if n_thin % 3 != 0 { continue; } }
                 if let Some(dd) = dd_ms(*w, node) {
                     n_desc += 1;
                     node.count_frags(out);
@@ -1625,6 +1862,35 @@ pub fn run(out: &mut Out, thorough: bool, seed: u64) {
                 }
             }
         }
+        // R1/R5: the lock towers and the mode-distinguishing scripts as tapscript leaves at depth
+        // 0, 1 and 3 (left comb: the LAST leaf is at depth 1, the FIRST at depth n-1)
+        let designated: Vec<Node> = lock_towers(&|i| 200 + i, &Node::Older(10)).into_iter()
+            .chain(lock_towers(&|i| 200 + i, &Node::After(100))).chain(mode_corpus(&|i| 200 + i)).chain(repeated_key_corpus(&|i| 200 + i, true)).collect();
+        for (i, node) in designated.iter().enumerate() {
+            if ast::to_ms::<DefiniteDescriptorKey, Tap>(node).is_err() { out.count(&format!("designated script not constructible in tap: {}", node.wire())); continue; }
+            let filler = [pk(205), and_v(vpk(206), Node::Hash(HK::Hash160, 1)), pk(207)];
+            let trees: Vec<Vec<Node>> = match i % 3 {
+                0 => vec![vec![node.clone()]],
+                1 => vec![vec![filler[0].clone(), node.clone()]],
+                _ => vec![vec![node.clone(), filler[0].clone(), filler[1].clone(), filler[2].clone()]],
+            };
+            for leaves in trees {
+                if let Some(dd) = dd_tr(4, &leaves) {
+                    n_desc += 1;
+                    // key path off, and every "one key missing" set: the designated leaf is used
+                    let mut full = full_pa(&dd);
+                    for s in full.srcs.iter_mut() { s.key_spend = false; }
+                    let mut pas = vec![full.clone()];
+                    for j in 0..full.srcs.len() { let mut a = full.clone(); a.srcs.remove(j); pas.push(a); }
+                    for o in lock_options_abs(&dd.afters) { let mut a = full.clone(); a.abs = o; pas.push(a); }
+                    for o in lock_options_rel(&dd.olders) { let mut a = full.clone(); a.rel = o; pas.push(a); }
+                    for h in full.pre.iter() { let mut a = full.clone(); a.pre.remove(h); pas.push(a); }
+                    let mut seen = BTreeSet::new();
+                    pas.retain(|a| seen.insert(a.clone()));
+                    for pa in pas { for mall in [false, true] { check_case(out, &dd, &pa, mall, false); } }
+                }
+            }
+        }
         // two sources covering ONE key with different taproot abilities (leaf / key path / size)
         for (ik, leaves) in [(3u32, vec![pk(200)]), (3, vec![pk(200), and_v(vpk(203), Node::Older(10))]), (0, vec![pk(203)]), (300, vec![pk(201)])] {
             if let Some(dd) = dd_tr(ik, &leaves) {
@@ -1659,6 +1925,26 @@ pub fn run(out: &mut Out, thorough: bool, seed: u64) {
             }
         }
     }
+    // ---- R2: refused-today inputs, one reason each: judged like everything else once accepted
+    for (why, w, node) in refused_corpus() {
+        match dd_ms(w, &node) {
+            None => out.count(&format!("refused today: {}", why)),
+            Some(dd) => {
+                out.count(&format!("refused-today input ACCEPTED: {}", why));
+                for pa in pa_variants(&dd, cap, &mut rng) { for mall in [false, true] { check_case(out, &dd, &pa, mall, false); } }
+            }
+        }
+    }
+    for (why, ik, leaves) in [("uncompressed internal key", 100u32, vec![]), ("uncompressed key in a tapscript leaf", 3, vec![pk(100)]),
+                              ("multi inside tapscript", 3, vec![Node::Multi(1, vec![200, 201])]), ("top level V tapscript leaf", 3, vec![vpk(200)])] {
+        match dd_tr(ik, &leaves) {
+            None => out.count(&format!("refused today: {}", why)),
+            Some(dd) => {
+                out.count(&format!("refused-today input ACCEPTED: {}", why));
+                for pa in pa_variants_tr(&dd, cap, &mut rng) { for mall in [false, true] { check_case(out, &dd, &pa, mall, false); } }
+            }
+        }
+    }
     // ---- Assets built through the library's construction API
     api_cases(out);
     psbt_two_leaves(out);
@@ -1668,7 +1954,7 @@ pub fn run(out: &mut Out, thorough: bool, seed: u64) {
     out.note("observations", "beyond the statement of C17, counted only (hist keys `observation: …`): Plan::update_psbt_input (1) inserts a script-path key into tap_key_origins with an EMPTY leaf-hash list on first insertion, e.g. tr(K,pk(A)) without key-path signing; (2) writes no bip32_derivation / tap_key_origins entry for a key whose public key (not signature) the plan pushes, e.g. sh(or_b(pkh(A),sn:ripemd160(H))) with only the preimage of H, (3) whereupon the updated and fully signed PSBT does not finalize".into());
     out.note("descriptors", n_desc.to_string());
     out.note("distinct_nontrivial", n_desc.to_string());
-    out.note("domain", "definite descriptors (bare/pkh/sh/wpkh/sh-wpkh/wsh/sh-wsh/tr; single keys with/without origin, xpub-derived keys of one master) x plan::Assets (key sources exact/parent/grand-parent/child/sibling/other-fingerprint, CanSign shapes, per-leaf availability, preimage subsets, max abs/rel lock below/at/above each lock and other unit) x {plan, plan_mall}".into());
+    out.note("domain", "definite descriptors (bare/pkh/sh/wpkh/sh-wpkh/wsh/sh-wsh/tr; single keys with/without origin, xpub-derived keys of one master) x plan::Assets (key sources exact/parent/grand-parent/child/sibling/other-fingerprint, CanSign shapes, per-leaf availability, preimage subsets, max abs/rel lock below/at/above each lock and other unit) x {plan, plan_mall}.  ROUTES: into_plan / into_plan_mall / deprecated plan / plan_mall / impl AssetProvider for Satisfier / LoggerAssetProvider / Plan::satisfy / Plan::update_psbt_input; every hand-made and designated script (ast::dimension_corpus incl. wrapper towers, lock / hash / raw-pkh corpora, lock towers, mode-distinguishing scripts, repeated keys) goes through wsh, sh(wsh), sh (bare where the context allows) and, with x-only keys, through tapscript leaves at depth 0, 1 and 3; only the machine enumeration is thinned (every third script) under sh(wsh).  LOCK TOWERS: older(10) / after(100) below every wrapper (a s c d v j n, towers n:n: and a:d:v:n:), on either side of and_v / and_b, in the satisfied branch of or_b / or_c / or_d / or_i / andor next to a DISSATISFIED sibling, in each andor position, among the satisfied and next to the dissatisfied children of thresh, below t:or_c and or_i(X,0) casts; the path through the lock is forced by every one-key-missing asset set; the reported locks are judged by executing the produced witness at exactly those locks (J spend) and at lock-1 / other unit / none / final sequence / disable flag (J spendfail), both modes.  STATES: the same Plan completed again after update_psbt_input and a clone taken before use (J plan-reuse-same); taproot descriptors rebuilt from their parts (empty spend-info cache) against the used object (J plan-fresh-same); Assets assembled through new()/after()/older()/add() piece by piece in another order against the struct built at once (J plan-assets-order-same); a Psbt on which finalize already failed, signed afterwards (J psbt-finalize afterfail.*).  REFUSED TODAY (27 inputs, one reason each: uncompressed keys in segwit / tapscript, multi_a outside tapscript, multi in tapscript, 21-key multi, bare shapes, 520-byte redeem script, top-level V / K / W, older(0) / disable flag, after(0) / 2^31, thresh k = 0 / k > n, d: / s: child types): run through every judge the day a constructor accepts them".into());
 }
 
 /// `C assetsquery <key fp> <key path> <src fp> <src path> <ecdsa 0/1>`: AssetProvider answer
